@@ -337,6 +337,7 @@ func cmdCheck(args []string) {
 	replayFile := fs.String("replay", "", "replay a recorded vector natively")
 	timeoutMs := fs.Int("solver-timeout-ms", 60000, "per-query solver timeout")
 	only := fs.String("only", "", "only run harnesses whose name contains this")
+	jobTimeout := fs.Int("job-timeout-s", 1500, "wall-clock limit per job (a job hitting it is inconclusive)")
 	verbose := fs.Bool("v", false, "verbose")
 	if len(args) < 1 {
 		fmt.Println("usage: gosym check <ID> [--tier quick|thorough]")
@@ -395,6 +396,9 @@ func cmdCheck(args []string) {
 		j.Pkg = pkgImport(j.Pkg)
 		j.Cfg.NoMerge = *nomerge
 		j.Cfg.KnownOpen = knownOpen
+		if j.Cfg.JobTimeoutS == 0 {
+			j.Cfg.JobTimeoutS = *jobTimeout
+		}
 		j.Cfg.AssertPrefix = spec.AssertPrefix
 		if j.Cfg.SampleEvery == 0 {
 			j.Cfg.SampleEvery = 1 + (seed % 3)
